@@ -325,7 +325,22 @@ func (a *epAnchors) takeOutHelper(c *core.Ctx, lc *core.LockCache, h *ssa.Functi
 		}
 		pi = cur
 		ld := rv.(ssa.Instruction)
-		if held, _ := lc.Get(h).HeldAt(ld, a.class, true); !held {
+		// … or every caller holds it around the call ("handlersMutex must be held")
+		callerHolds := false
+		if sites, _ := c.CallSites(); len(sites[h]) > 0 {
+			callerHolds = true
+			for _, cs := range sites[h] {
+				if _, plain := cs.(*ssa.Call); !plain {
+					callerHolds = false
+					break
+				}
+				if hc, _ := lc.Get(cs.Parent()).HeldAt(cs.(ssa.Instruction), a.class, true); !hc {
+					callerHolds = false
+					break
+				}
+			}
+		}
+		if held, _ := lc.Get(h).HeldAt(ld, a.class, true); !held && !callerHolds {
 			return 0, false
 		}
 		isID := func(v ssa.Value) bool { return core.Canon(v) == ssa.Value(p) }
@@ -375,7 +390,7 @@ func (a *epAnchors) takeOutHelper(c *core.Ctx, lc *core.LockCache, h *ssa.Functi
 		for _, b := range h.Blocks {
 			for _, in := range b.Instrs {
 				if clears(in) {
-					if held, _ := lc.Get(h).HeldAt(in, a.class, true); !held {
+					if held, _ := lc.Get(h).HeldAt(in, a.class, true); !held && !callerHolds {
 						return 0, false
 					}
 					if ldi, ok := rv.(ssa.Instruction); ok && unlockBetween(h, ldi, in, a.class) {
@@ -688,16 +703,50 @@ func ruleSlotFill(c *core.Ctx, a *epAnchors, lc *core.LockCache, rule string) {
 			}
 			n++
 			key := fmt.Sprintf("slot-fill@%s#%d", core.FuncKey(fn), i)
-			if fn != a.makeHandler {
-				c.Fail(rule, key, st.Pos(), "a handler slot is filled outside MakeHandler")
-				continue
+			isFresh := func(v ssa.Value) bool {
+				if call, _ := core.CallResult(core.Canon(v)); call != nil && a.newHandler != nil && core.IsCallTo(call, a.newHandler) {
+					return true
+				}
+				if al, ok := core.Canon(v).(*ssa.Alloc); ok && core.TypeIs(al.Type(), "bus/net", "Handler") {
+					return true
+				}
+				return false
 			}
 			fresh := false
-			if call, _ := core.CallResult(core.Canon(st.Val)); call != nil && a.newHandler != nil && core.IsCallTo(call, a.newHandler) {
-				fresh = true
-			}
-			if al, ok := core.Canon(st.Val).(*ssa.Alloc); ok && core.TypeIs(al.Type(), "bus/net", "Handler") {
-				fresh = true
+			callerHolds := false
+			if fn != a.makeHandler {
+				// a private helper of the end point that MakeHandler (and nobody else) calls
+				// with the handler it has just allocated: attach(h), putHandler(h), storeHandler(h)
+				sites, _ := c.CallSites()
+				pj := -1
+				if p, isP := core.Canon(st.Val).(*ssa.Parameter); isP {
+					for j, fp := range fn.Params {
+						if fp == p {
+							pj = j
+						}
+					}
+				}
+				okHelper := isPrivateHelper(c, fn) && pj >= 0 && len(sites[fn]) > 0
+				allHold := true
+				for _, cs := range sites[fn] {
+					if cs.Parent() != a.makeHandler {
+						okHelper = false
+						break
+					}
+					if _, plain := cs.(*ssa.Call); !plain || pj >= len(cs.Common().Args) || !isFresh(cs.Common().Args[pj]) {
+						okHelper = false
+					}
+					if h, _ := lc.Get(cs.Parent()).HeldAt(cs.(ssa.Instruction), a.class, true); !h {
+						allHold = false
+					}
+				}
+				if !okHelper {
+					c.Fail(rule, key, st.Pos(), "a handler slot is filled outside MakeHandler")
+					continue
+				}
+				fresh, callerHolds = true, allHold
+			} else {
+				fresh = isFresh(st.Val)
 			}
 			if !fresh {
 				c.Fail(rule, key, st.Pos(), "the handler stored in the slot is not the one MakeHandler just allocated")
@@ -708,7 +757,7 @@ func ruleSlotFill(c *core.Ctx, a *epAnchors, lc *core.LockCache, rule string) {
 				c.Fail(rule, key, st.Pos(), "MakeHandler overwrites a slot that was not tested to be nil: a live handler is dropped without being closed, or its id is reused before removal")
 				continue
 			}
-			if h, _ := lc.Get(fn).HeldAt(st, a.class, true); !h {
+			if h, _ := lc.Get(fn).HeldAt(st, a.class, true); !h && !callerHolds {
 				c.Fail(rule, key, st.Pos(), "slot filled without handlersMutex")
 				continue
 			}
